@@ -642,7 +642,7 @@ func c39Grid(r *mc.R) (abandon, kvprefix []c39Params) {
 	}
 	kvSideMaxLen := mc.Pick(r, 2, 5) // kv-prefix histories with a side chain only up to this length
 	kvSnapMaxLen := mc.Pick(r, 2, 5) // kv-prefix histories with snapshots only up to this length
-	postMaxLen := mc.Pick(r, 3, 5) // post-recovery SetHead(k) dimension only for canonical lengths up to this
+	postMaxLen := mc.Pick(r, 3, 4) // post-recovery SetHead(k) dimension only for canonical lengths up to this
 	r.Bound("postop_max_canonical_len", postMaxLen)
 	type sc struct {
 		scheme string
@@ -682,10 +682,13 @@ func c39Grid(r *mc.R) (abandon, kvprefix []c39Params) {
 								}
 							}
 							for _, pv := range pivots {
+								if r.Quick() && fr > 0 && pv != 0 && pv != (l+1)/2 {
+									continue // quick: the freezer is crossed with the pivots {none, middle} only
+								}
 								base := c39Params{Scheme: s.scheme, Snapshots: s.snaps, Hist: s.hist, Len: l, Side: side, Fork: fk, Commit: c, Freeze: fr, Pivot: pv, PostOp: -1, Crash: "abandon"}
 								abandon = append(abandon, base)
 								// post-recovery SetHead(k) for every k up to the recovered head block
-								if pv == 0 && l <= postMaxLen {
+								if pv == 0 && l <= postMaxLen && !(r.Quick() && fr > 0) {
 									for k := 0; k <= c; k++ {
 										if r.Quick() && k == c && c > 0 {
 											continue // quick: SetHead(recovered head) changes nothing, thorough keeps it
